@@ -94,8 +94,22 @@ pub fn run_workload(sub: u64, only_plan: Option<&str>, acc: &mut Acc, ctx: &Ctx,
     }
     args.extend(gen_harmless_flags(&mut Rng::new(sub ^ 0xF1A6), &["-i", "-S", "--no-unicode"]));
     let mut enc_args = args.clone();
+    // the last encoding flag decides; earlier ones (none, another label) leave nothing behind
+    let label: String = if w.be { "utf-16be".into() } else { "utf-16le".into() };
+    let spell = Rng::new(sub ^ 0xE5C).below(5);
     if !w.bom {
-        enc_args.extend(["-E".into(), if w.be { "utf-16be".into() } else { "utf-16le".into() }]);
+        match spell {
+            0 => enc_args.extend(["-E".into(), "none".into(), "-E".into(), label]),
+            1 => enc_args.extend(["--encoding=latin1".into(), "--no-encoding".into(), format!("--encoding={label}")]),
+            _ => enc_args.extend(["-E".into(), label]),
+        }
+    } else {
+        match spell {
+            0 => enc_args.extend(["-E".into(), "none".into(), "-E".into(), "auto".into()]),
+            1 => enc_args.extend(["-E".into(), "latin1".into(), "--encoding=auto".into()]),
+            2 => enc_args.extend(["--encoding=none".into(), "--no-encoding".into()]),
+            _ => {}
+        }
     }
     for a in [&mut args, &mut enc_args] {
         a.push(w.pattern.into());
